@@ -15,6 +15,9 @@ CHECKS = {
  "C04": dict(cat="exploration", ref="2 (C04)", technique="model-based property testing of cursor programs against a sorted-map cursor",
    text="Generated cursor programs (seek_to_first/last, seek to present/absent/out-of-range targets, next, prev, reversals weighted up) over multi-level LSM shapes; after every step validity, current key/value and the return value of next/prev are compared with a cursor over the sorted visible map.",
    note="next/prev are only issued on a valid iterator (they assert validity; every caller in the repository checks first). Trusted: MemFs, model."),
+ "C05": dict(cat="exploration", ref="4 (C05)", technique="generated concurrent programs under generated forced schedules (hook points) and natural schedules; recorded histories decided by a complete per-key linearizability search",
+   text="2-4 client threads run generated put/delete/batch/get/flush programs on a 512-1500 byte memtable while 1-4 generated directives hold a chosen thread (client or background) at a chosen hook point until the others finish; every operation is stamped with a global counter and each key's history, closed by a quiescent final read, is checked by a complete Wing-Gong/Lowe search (self-tested before each run).",
+   note="Windows that do not cross a hook point are only reached by natural schedules. Group-commit error outcomes under faults are covered by C08 (single client) only; per-writer outcomes under faults with several writers are not explored."),
  "C07": dict(cat="exploration", ref="2 (C07)", technique="metamorphic property testing (dump before == dump after flush/compaction) plus model comparison",
    text="Metamorphic relation: the full contents (scan + point gets at the latest state and at every live snapshot) taken immediately before a flush / compact_range / background-compaction wait / seek-compaction trigger must be identical afterwards, and equal to the model.",
    note="Trusted: MemFs, model; quiescence is observed through the verif_wait_idle hook."),
